@@ -137,6 +137,8 @@ type RunCtx struct {
 	Sample    map[string]any
 	Truncated bool
 	Params    map[string]string
+	// Local is per-run scratch state of the generators (never shared between runs).
+	Local map[string]string
 }
 
 // Logf appends to the canonical event log.  It never draws and never reads a clock.
